@@ -28,7 +28,8 @@ RULE = ("history phase: 1-2 committers x 2-5 commits (appends, deletes, expiries
         "pointer twice with a commit through another handle in between. Oracle: the table resolves to the latest committed version "
         "(uuid, snapshot list, rows), is not re-initialised, the next commit refines the latest committed version, GC "
         "deletes nothing it references, and no never-committed version is surfaced. Distinct = SHA-1 of write/pointer "
-        "events + pointer class; non-trivial = uncommitted metadata files existed or the pointer was unusable.")
+        "events + pointer class; non-trivial = uncommitted metadata files existed or the pointer was unusable. Path-like pointer classes: "
+        "../name, ../../other/metadata/name, /abs/name, metadata/<current name>, backslashes.")
 ASSUMPTIONS = common.BASE_ASSUMPTIONS + [
     "the committed set is what the flip observer saw the pointer name; orphan metadata files come only from failed / "
     "conflicting commits (crash orphans belong to C03)",
